@@ -62,6 +62,7 @@ def run(ctx):  # noqa: C901, PLR0912, PLR0915
     from . import common
     # a context state obtained through the entity interface is a copy: associating it there associates nothing in the MDIB
     common.entity_getters_hand_out_copies(ctx, 'C10.R1')
+    common.skip_lists_are_kept(ctx, 'C10.R2')
     # ------------------------------------------------------------------ R1
     sl = repo.func(f'{XT}.set_location')
     g = cfg_of(sl)
